@@ -38,6 +38,10 @@ pub fn set_quiet(q: bool) {
     QUIET.with(|x| *x.borrow_mut() = q);
 }
 
+pub fn is_quiet() -> bool {
+    QUIET.with(|x| *x.borrow())
+}
+
 pub fn take_last_panic() -> Option<String> {
     LAST_PANIC.with(|p| p.borrow_mut().take())
 }
